@@ -7,11 +7,16 @@ CONSTANTS
   Sizes = {"m"}
   Cap = 0
   MaxWq = 1
+  MaxBurst = 0
+  Budget = 2
+  ET = TRUE
   Dev_ForeignCloseErasesIndex = FALSE
+  Dev_ReadBudget = FALSE
 INVARIANT Inv_Sticky
 INVARIANT Inv_RxPeer
 INVARIANT Inv_OneDatagram
 INVARIANT Inv_Addressed
 INVARIANT Inv_Index
 INVARIANT Inv_IndexOwner
+INVARIANT Inv_NoStrand
 CHECK_DEADLOCK FALSE
